@@ -7,6 +7,7 @@ import Rare.Proofs.C18Abbr
 import Rare.Proofs.C18Zone
 import Rare.Proofs.C18Cache
 import Rare.Proofs.C18Hist
+import Rare.Proofs.C18Name
 import Rare.Gen.C18
 /-!
 # C18 – Time helpers agree with the calendar and round-trip
@@ -654,6 +655,84 @@ theorem zone_day_window_counterexample :
     ∧ timeAttrIn newYork2016 (asc "yearweek") 1457928300 = some (asc "2016-11")
     ∧ (timeAttrM newYork2016 (asc "weekday")).run () [asc "1457848800", asc "1457928300"] = [Out.val (asc "0"), Out.val (asc "1")]
     ∧ dayWindowStart newYork2016 1457870000 = 1457845200 - 3600 := by
+  decide +kernel
+
+/-! ## Abbreviations in the text: `Location.lookupName` on the table (round 4c) -/
+
+/-- A layout with an abbreviation token and NO numeric zone that carries date and time to the second
+(`UNIX`, `RFC1123`, `2006-01-02 15:04:05 MST` …) round-trips relative to the location given as
+transition table + zone list: `{time {timeformat u L Z} L Z}` is `u` for EVERY instant – also inside
+an overlap, where the zone-less layouts of `zoneless_format_roundtrip` answer the later instant: the
+abbreviation tells the two apart – provided the abbreviation is one the parser reads (`AbbrOK`, see
+`abbr_class`) and names ONE offset in the location's zone list (`hall`; EST/EDT, CET/CEST, GMT/BST …).
+The counterexample below shows what happens otherwise. -/
+theorem abbr_format_roundtrip (layout : Bytes) (hRT : RT (tokenize layout) = true)
+    (hc : let c := carries (tokenize layout)
+      (c.contains 'Y' && c.contains 'M' && c.contains 'D' && c.contains 'h' && c.contains 'm' && c.contains 's'
+        && !c.contains 'y' && !c.contains 'z' && c.contains 'a') = true)
+    (z : ZoneTab) (zones : List (Bytes × Int)) (u : Int)
+    (hoff : OffOK (z.lookup u).off) (habbr : AbbrOK (z.lookup u).abbr (z.lookup u).off)
+    (hy : 0 ≤ (civilOf u (z.lookup u).off).y ∧ (civilOf u (z.lookup u).off).y ≤ 9999)
+    (hall : ∀ e ∈ zones, e.1 = (z.lookup u).abbr → e.2 = (z.lookup u).off)
+    (hex : ∃ e ∈ zones, e.1 = (z.lookup u).abbr) :
+    ∃ p, parseLayout layout (formatLayout layout (timeVIn z u)) = .ok p ∧ instantInN z zones p = u := by
+  simp only [Bool.and_eq_true, Bool.not_eq_true'] at hc
+  obtain ⟨⟨⟨⟨⟨⟨⟨⟨cY, cM⟩, cD⟩, ch⟩, cm⟩, cs⟩, cy⟩, cz⟩, ca⟩ := hc
+  have hsec : 0 ≤ localSecs u (z.lookup u).off ∧ localSecs u (z.lookup u).off < 86400 := by unfold localSecs; omega
+  have hcv := civil_month_day (localDays u (z.lookup u).off)
+  have hvalid : (timeVIn z u).dt.valid := by
+    simp only [timeVIn, timeVOf, civilOf, DateTime.valid] at hy ⊢
+    refine ⟨hy.1, hy.2, hcv.1, hcv.2.1, hcv.2.2.1, hcv.2.2.2, ?_, ?_, ?_, ?_, ?_, ?_, by omega, by omega⟩ <;> omega
+  have hnoy : ¬ (.std .year ∈ tokenize layout) := by
+    intro hm
+    have : 'y' ∈ carries (tokenize layout) := by
+      simp only [carries, List.mem_filterMap]; exact ⟨_, hm, rfl⟩
+    rw [List.contains_iff_mem.mpr this] at cy; cases cy
+  obtain ⟨p, hp, hdt, hzone⟩ := roundtrip_abbr (tokenize layout) hRT (timeVIn z u)
+    ⟨hvalid, rfl, weekday_range' _, hoff, fun hm => absurd hm hnoy, fun _ => habbr⟩ cz ca
+  refine ⟨p, hp, ?_⟩
+  have hpd : p.dt = civilOf u (z.lookup u).off := by
+    rw [hdt]
+    simp only [projectDT, cY, cM, cD, ch, cm, cs, Bool.true_or, if_true, timeVIn, timeVOf, civilOf]
+  have hw := wall_of_instant u (z.lookup u).off
+  have hwall : wallSeconds p.dt = z.wall u := by rw [hpd]; unfold ZoneTab.wall; omega
+  have habbr' : (timeVIn z u).abbr = (z.lookup u).abbr := rfl
+  by_cases hu : (z.lookup u).abbr = utcB
+  · have h0 : (z.lookup u).off = 0 := (habbr.utc (by rw [hu]; rfl)).2
+    simp only [instantInN, hzone, habbr', hu, if_true, hwall]
+    unfold ZoneTab.wall; omega
+  · have hf := lookupNameFirst_in_force z u zones hall hex
+    simp only [instantInN, hzone, habbr', hu, if_false, hwall, lookupNameIn, hf]
+    unfold ZoneTab.wall; omega
+
+/-- An abbreviation the location does not know makes a fabricated zone whose offset is NOT applied:
+the written wall clock is read as UTC – for `CEST` in New York as for `GMT+3` anywhere (Go's
+behaviour, mirrored; the same in the real code, op `zn`). -/
+theorem abbr_unknown_is_utc (z : ZoneTab) (zones : List (Bytes × Int)) (p : Parsed) (n : Bytes)
+    (hp : p.zone = .name n) (hn : ∀ e ∈ zones, e.1 ≠ n) : instantInN z zones p = wallSeconds p.dt := by
+  simp only [instantInN, hp, lookupNameIn_unknown z zones n _ hn]
+
+/-- Europe/Moscow around 2014 as a table – MSK is +03:00, +04:00 from 27 March 2011, +03:00 again from
+26 October 2014 – and its zone list in tzfile order (17 entries, three of them `MSK`). -/
+def moscow2014 : ZoneTab := ⟨(10800, asc "MSK"), [(1301180400, 14400, asc "MSK"), (1414274400, 10800, asc "MSK")]⟩
+def moscowZones : List (Bytes × Int) :=
+  [(asc "LMT", 9017), (asc "MMT", 9017), (asc "MST", 12679), (asc "MMT", 9079), (asc "MDST", 16279), (asc "MSD", 14400),
+   (asc "MSK", 10800), (asc "MSD", 14400), (asc "+05", 18000), (asc "EET", 7200), (asc "MSK", 10800), (asc "MSD", 14400),
+   (asc "EEST", 10800), (asc "EET", 7200), (asc "MSK", 14400), (asc "MSD", 14400), (asc "MSK", 10800)]
+
+/-- The hypothesis "one offset per name" of `abbr_format_roundtrip` is needed.  On 26 October 2014
+Moscow went from MSK (+04:00) to MSK (+03:00): 01:59:59 MSK was shown twice and the abbreviation does
+not tell the two apart.  `lookupName` tries the first `MSK` entry (+03:00), finds MSK in force one
+hour later and answers +03:00: the earlier of the two instants is printed `Sun, 26 Oct 2014 01:59:59
+MSK` and parsed back one hour late; the later one round-trips.  (Identical in the real code: corpus r4c.) -/
+theorem abbr_overlap_counterexample :
+    sortedTrans moscow2014.trans = true
+    ∧ formatLayout (asc "Mon, 02 Jan 2006 15:04:05 MST") (timeVIn moscow2014 1414274399) = asc "Sun, 26 Oct 2014 01:59:59 MSK"
+    ∧ formatLayout (asc "Mon, 02 Jan 2006 15:04:05 MST") (timeVIn moscow2014 1414277999) = asc "Sun, 26 Oct 2014 01:59:59 MSK"
+    ∧ (parseLayout (asc "Mon, 02 Jan 2006 15:04:05 MST") (asc "Sun, 26 Oct 2014 01:59:59 MSK")).toOption.map (instantInN moscow2014 moscowZones)
+        = some 1414277999
+    ∧ lookupNameIn moscow2014 moscowZones (asc "MSK") (moscow2014.wall 1414274399) = some 10800
+    ∧ (moscow2014.lookup 1414274399).off = 14400 := by
   decide +kernel
 
 /-! ## Durations -/
